@@ -98,7 +98,7 @@ impl SubCheck for Pure {
 		"pure-layer"
 	}
 	fn cases(&self, tier: Tier) -> u32 {
-		tier.pick(60_000, 2_000_000)
+		tier.pick(400_000, 8_000_000)
 	}
 	fn strategy(&self, tier: Tier) -> BoxedStrategy<PureCase> {
 		let d = tier.pick(3, 5);
@@ -211,7 +211,7 @@ impl SubCheck for Wire {
 		"through-server"
 	}
 	fn cases(&self, tier: Tier) -> u32 {
-		tier.pick(15_000, 400_000)
+		tier.pick(100_000, 2_000_000)
 	}
 	fn strategy(&self, _tier: Tier) -> BoxedStrategy<WireCase> {
 		let entry = (arb_gid(), 0u8..6, 0u8..3, proptest::option::weighted(0.2, 0u16..200)).prop_map(|(id, kind, handler, fail)| WireEntry { id, kind, handler, fail });
